@@ -63,12 +63,16 @@ fn run_once(sched: &Arc<Sched>, sc: &Value, sc_ix: usize, run_ix: usize, out: &A
         .collect();
     let rec = Arc::new(Mutex::new((vec![], vec![])));
     let mut wrap = Recorder { inner: chooser, rec: rec.clone() };
-    sched.run(jobs, 10_000, &mut wrap);
+    sched.run(jobs, std::cmp::max(10_000, total * 4 + 1_000), &mut wrap);
     sched.set_after(None);
     // a second generator with the same namespace, called sequentially the same number of times
     let gen2 = mk();
     let seq2: Vec<Value> = (0..total).map(|_| { let id = gen2.next(); json!({"id": table.get(&id).copied().unwrap_or(-1), "raw": id.to_string()}) }).collect();
-    out.push(json!({"k": "end", "counter": sint(gen.verif_counter().0.wrapping_sub(start)), "gen2": seq2, "total": total}));
+    // a third generator, used sequentially like the second: "two generators with the same namespace issue the
+    // same ids for the same number of calls" is judged on the raw ids of these two and of the concurrent run
+    let gen3 = mk();
+    let seq3: Vec<Value> = (0..total).map(|_| json!(gen3.next().to_string())).collect();
+    out.push(json!({"k": "end", "counter": sint(gen.verif_counter().0.wrapping_sub(start)), "gen2": seq2, "gen3": seq3, "total": total}));
     let g = rec.lock().unwrap().clone();
     g
 }
